@@ -23,7 +23,7 @@ ID = "C05"
 LEVEL = "exploration"
 TECHNIQUE = ("model-based testing of operation histories: exhaustive short sequences over fixed op alphabets + Hypothesis-drawn "
              "histories, real revent run in lock-step with an independent delivery monitor")
-LEVEL_TEXT = ("Exploration by generated histories: every sequence of up to 4 (quick) / 5 (thorough) operations over three fixed "
+LEVEL_TEXT = ("Exploration by generated histories: every sequence of up to 4 (quick) / 5 (thorough) operations over four fixed "
               "alphabets of 12-16 operations is run, plus Hypothesis-drawn histories with re-entrant handler scripts; each is judged "
               "by a monitor (pvf/ref/evmodel.py) restating the property: snapshot at raise time ordered by (-priority, subscription "
               "order), exactly once, halting, removal, rejection of undeclared types, error suppression, weak handlers. The event "
@@ -36,6 +36,8 @@ RULE = ("a case is a history of subscribe/unsubscribe/raise/drop-owner/auto-bind
         "operation or halted the event; distinct by SHA-1 of the canonical JSON of the case")
 ASSUMPTIONS = [
   "handlers are bound methods (the only kind CallProxy supports for weak=True); events are Event subclasses",
+  "owner objects may have value equality (distinct owners comparing and hashing equal): a subscription belongs to the object, not to its value",
+  "a handler's exception may derive directly from BaseException (the harness's own Cancelled class; KeyboardInterrupt/SystemExit are not used)",
   "a handler subscribed, or unsubscribed by another handler, while a delivery is in progress may or may not be invoked in that delivery (at most once)",
   "bare True / False return values and 'event.halt = True' without a halting return value are outside the documented protocol: their effect is not judged",
   "after a handler raised, whether the remaining handlers of that delivery run is not judged",
@@ -45,8 +47,8 @@ ASSUMPTIONS = [
   "owner death is observed through a weakref (never predicted) except for owners that were only ever subscribed weakly and are dropped outside any delivery: those must be collectable",
 ]
 EXHAUSTIVE_SCOPE = {
-  "quick": "all operation sequences (with repetition) of length <= 4 over the three fixed alphabets 'prio' (12 ops), 'remove' (14 ops) and 'weak' (16 ops), fixed handler scripts",
-  "thorough": "all operation sequences (with repetition) of length <= 5 over the same three alphabets",
+  "quick": "all operation sequences (with repetition) of length <= 4 over the four fixed alphabets 'prio' (12 ops), 'remove' (14 ops), 'weak' (16 ops) and 'eq' (13 ops), fixed handler scripts",
+  "thorough": "all operation sequences (with repetition) of length <= 5 over the same four alphabets",
 }
 
 METHODS = ["handle", "_handle_E0", "_handle_E1", "_handle_E2", "_handle_EU", "_handle_p_E0", "_handle_p_E1", "_handle_p_EU"]
@@ -62,6 +64,10 @@ _P = None
 
 class Boom(Exception):
   """The exception a scripted handler raises."""
+
+
+class Cancelled(BaseException):
+  """A scripted handler's exception that does not derive from Exception (like a cancellation signal)."""
 
 
 def setup():
@@ -99,13 +105,21 @@ def setup():
     self._rt, self._i = rt, i
   ns["__init__"] = __init__
   Owner = type("Owner", (RE.EventMixin,), ns)
+
+  # owners with value semantics: distinct objects of one group compare (and hash) equal
+  def _eq(self, other):
+    return isinstance(other, EqOwner) and other._eq == self._eq
+
+  def _ne(self, other):
+    return not _eq(self, other)
+  EqOwner = type("EqOwner", (Owner,), {"__eq__": _eq, "__ne__": _ne, "__hash__": lambda self: hash(("EqOwner", self._eq))})
   rets = {
     "none": None, "true": True, "false": False, "cont": RE.EventContinue, "halt": RE.EventHalt,
     "remove": RE.EventRemove, "haltremove": RE.EventHaltAndRemove,
   }
   if (RE.EventContinue, RE.EventHalt, RE.EventRemove, RE.EventHaltAndRemove) != ((False, False), (True, False), (False, True), (True, True)):
     raise HarnessError("EventReturn constants are not the documented (halt, remove) pairs")
-  _P = {"RE": RE, "types": types, "srccls": [S0, S1], "Owner": Owner, "rets": rets}
+  _P = {"RE": RE, "types": types, "srccls": [S0, S1], "Owner": Owner, "EqOwner": EqOwner, "rets": rets}
   gc.collect()
   gc.freeze()
 
@@ -127,7 +141,12 @@ class RT(object):
     self.owners = {}
     self.wr = []
     for i in range(self.nown):
-      o = P["Owner"](self, i)
+      g = self.scripts[i].get("eq")
+      if g:
+        o = P["EqOwner"](self, i)
+        o._eq = g
+      else:
+        o = P["Owner"](self, i)
       self.owners[i] = o
       self.wr.append(weakref.ref(o))
     self.dropped = set()
@@ -224,7 +243,10 @@ class RT(object):
       if pending is None:
         if sc.get("halt"):
           event.halt = True
-        if sc.get("exc"):
+        if sc.get("exc") == "base":
+          pending = Cancelled(i)
+          self.flag("handler-raised-baseexception")
+        elif sc.get("exc"):
           pending = Boom(i)
       ret = sc.get("ret", "none")
       self.mon.returned(d, s, ret, bool(sc.get("halt")), pending is not None)
@@ -422,7 +444,7 @@ class RT(object):
         f(T(d.id))
       else:
         f(T, d.id)
-    except Exception as e:
+    except (Exception, Cancelled) as e:
       exc = e
     try:
       return self._judge_raise(d, exc, si, T, form, noerr, declared, nested)
@@ -666,6 +688,16 @@ def _alphabets():
          {"op": "bind", "s": 1, "h": 0, "pfx": "p", "weak": False, "p": 5, "api": "listenTo"},
          {"op": "drop", "h": 0}, _raise(), _raise(s=1, noerr=True), _raise(t=3), _unsub(0, "handler")]
   A["weak"] = (owners, ops, 2)
+  # owners that compare equal to each other; a handler exception that is not an Exception
+  owners = [
+    _o(eq=1),
+    _o(eq=1),
+    _o(exc="base"),
+  ]
+  ops = [_sub(0, weak=True), _sub(1, weak=True), _sub(0), _sub(1, t=1), _sub(2),
+         _unsub(0, "handler"), _unsub(1, "handler"), _unsub(0, "handler_type"), _unsub(1, "eid"),
+         {"op": "drop", "h": 0}, _raise(), _raise(noerr=True), _raise(t=1, form="cls", noerr=True)]
+  A["eq"] = (owners, ops, 1)
   return A
 
 
@@ -703,7 +735,8 @@ def _strategy(tier):
   owner = st.fixed_dictionaries({
     "ret": st.sampled_from(["none", "none", "none"] + RET_KINDS),
     "halt": st.sampled_from([False] * 7 + [True]),
-    "exc": st.sampled_from([False] * 5 + [True]),
+    "exc": st.sampled_from([False] * 10 + [True, True, "base"]),
+    "eq": st.sampled_from([0, 0, 0, 1, 1, 2]),
     "leak": st.sampled_from([False, False, True]),
     "reps": st.sampled_from([1, 1, 2]),
     "ops": st.lists(_s_op(True), min_size=0, max_size=3),
@@ -721,11 +754,13 @@ def plan(tier):
       Enum("seq-prio", lambda: _enum("prio", 4), shards=16),
       Enum("seq-remove", lambda: _enum("remove", 4), shards=16),
       Enum("seq-weak", lambda: _enum("weak", 4), shards=16),
+      Enum("seq-eq", lambda: _enum("eq", 4), shards=16),
       Hyp("histories", lambda: _strategy(tier), examples=3000, shards=16),
     ]
   return [
     Enum("seq-prio", lambda: _enum("prio", 5), shards=16),
     Enum("seq-remove", lambda: _enum("remove", 5), shards=16),
     Enum("seq-weak", lambda: _enum("weak", 5), shards=16),
+    Enum("seq-eq", lambda: _enum("eq", 5), shards=16),
     Hyp("histories", lambda: _strategy(tier), examples=150000, shards=16),
   ]
